@@ -378,6 +378,18 @@ func (p *c19) Run(tier string, seed int64, idx int) core.CaseResult {
 				toks = []string{"\"no-such-enum\"", "7"}
 			case "decimal64":
 				toks = []string{"\"0.12345\"", "\"abc\""}
+			case "union":
+				toks = []string{"\"no-member-takes-this\"", "1000"}
+			}
+			// a valid value behind the name of the leaf's own module (the form RFC 7951 reserves for
+			// identityrefs): not a value of any other type, and not an identity of that module either
+			if lt.rtype.Kind != "string" && lt.rtype.Kind != "empty" && len(lt.vals) > 0 {
+				for _, v := range lt.vals[:min(2, len(lt.vals))] {
+					if j := strings.Index(v, ":"); j >= 0 {
+						v = v[j+1:]
+					}
+					toks = append(toks, "\"m18:"+v+"\"")
+				}
 			}
 			for _, tk := range toks {
 				mut := doc[:loc[4]] + tk + doc[loc[5]:]
